@@ -172,6 +172,14 @@ func (s *Stream) reset() {
 	s.dst.Reset()
 	s.flushing = false
 	s.flushWaiters = nil
+
+	// Frames an earlier session queued but never got out (a Pong or Close reply, a message whose write failed) do not
+	// belong to the session that is about to start.
+	for i := range s.pendingFrames {
+		s.releaseFrame(s.pendingFrames[i])
+		s.pendingFrames[i] = nil
+	}
+	s.pendingFrames = s.pendingFrames[:0]
 }
 
 // Returns the stream through which IO is done.
